@@ -34,6 +34,17 @@ var documentedTypes = map[errors.ErrorType]bool{
 	errors.FileInvalidWindowsDriveLetter: true, errors.FileInvalidWindowsDriveLetterHost: true,
 }
 
+// Case15 is C01's pair plus optional further parser options under which the reporting relation is
+// evaluated as well (reporting is observation only, whatever else is configured).
+type Case15 struct {
+	Input   B       `json:"input"`
+	Base    B       `json:"base"`
+	HasBase bool    `json:"has_base"`
+	Opts    []Opt16 `json:"opts,omitempty"`
+}
+
+func (c Case15) pair() Case01 { return Case01{Input: c.Input, Base: c.Base, HasBase: c.HasBase} }
+
 func parseWith(p url.Parser, c Case01) parsed {
 	if c.HasBase {
 		u, err := p.ParseRef(string(c.Base), string(c.Input))
@@ -43,7 +54,22 @@ func parseWith(p url.Parser, c Case01) parsed {
 	return parsed{u, err}
 }
 
-func Check15(c Case01, r *core.Rec) {
+func Check15(cc Case15, r *core.Rec) {
+	c := cc.pair()
+	if len(cc.Opts) > 0 {
+		// (i') under any further options: adding reporting changes neither success nor any component
+		base := buildOptions(cc.Opts)
+		without := parseWith(url.NewParser(base...), c)
+		with := parseWith(url.NewParser(append(append([]url.ParserOption{}, base...), url.WithReportValidationErrors())...), c)
+		r.Class("extra-options")
+		if d := sameOutcome(with, without); d != "" {
+			r.Failf("%s options %s: adding validation-error reporting changes the result: %s", quote(string(c.Input)), optNames(cc.Opts), d)
+			return
+		}
+		if without.ok() && len(with.u.ValidationErrors()) > 0 {
+			r.NT()
+		}
+	}
 	where := quote(string(c.Input))
 	if c.HasBase {
 		where += " base=" + quote(string(c.Base))
@@ -184,21 +210,40 @@ var c15Inputs = []string{" http://h/", "http://h/\t", "http:\\\\h\\p", "http:/h"
 	"http://h..a/", "file:///C|/x", "file://C:/x", "file:c:/x", "http://h/a b", "http://h/?a b", "http://h/#a b", "http://é/", "foo://h/%zz", "foo:%zz", "foo://h^/", "http://h:65536/", "http://h:8a/", "http://[::1/", "http://[1::2::3]/", "http://[::1.2.3]/",
 	"http://1.2.3.4.5/", "http://256.256.256.256/", "http://1.2.3.256/", "http://0x100000000/", "http://a.1.2.3.4g/", "//h", "/p", "", "h", "1:", "http://@/", "http://:@h/", "http://h:/", "http://0x.0x/", "http://1..2/", "http://.1/", "http://1./", "http://.../", "http://a.../"}
 
-func Gen15(t *rapid.T) Case01 {
+var c15ExtraOpts = []string{"accept-invalid", "single-percent", "collapse", "skip-drive", "lax-host", "skip-equals", "special-schemes", "path-set", "query-set", "special-query-set", "fragment-set", "special-fragment-set"}
+
+func Gen15(t *rapid.T) Case15 {
+	var c Case15
 	if rapid.IntRange(0, 2).Draw(t, "biased") == 0 {
-		c := Case01{Input: B(gen.Mutate(t, "mut", gen.Pick(t, "input", c15Inputs)))}
+		c.Input = B(gen.Mutate(t, "mut", gen.Pick(t, "input", c15Inputs)))
 		if rapid.IntRange(0, 2).Draw(t, "hasBase") == 0 {
 			c.HasBase = true
 			c.Base = B(gen.BaseString(t, "base"))
 		}
-		return c
+	} else {
+		p := Gen01(t)
+		c.Input, c.Base, c.HasBase = p.Input, p.Base, p.HasBase
 	}
-	return Gen01(t)
+	if rapid.IntRange(0, 3).Draw(t, "extra") == 0 {
+		seen := map[string]bool{}
+		for i, n := 0, rapid.IntRange(1, 3).Draw(t, "nextra"); i < n; i++ {
+			name := gen.Pick(t, "extraOpt", c15ExtraOpts)
+			if !seen[name] {
+				seen[name] = true
+				c.Opts = append(c.Opts, genOpt(t, name))
+			}
+		}
+		if rapid.IntRange(0, 1).Draw(t, "pctInput") == 0 {
+			c.Input = B(gen.Pick(t, "pctIn", []string{"mailto:50%off@x", "foo:a%zz", "http://h/%", "http://h/a%2", "foo://h%/p", "http://h/?%#%", "data:%%%", "x:%4", "http://a\xff/%"}))
+			c.HasBase = false
+		}
+	}
+	return c
 }
 
-var P15 = core.Register(core.Prop[Case01]{
+var P15 = core.Register(core.Prop[Case15]{
 	ID: "C15",
-	Rule: "(input, base?) pairs as in C01, a third biased to inputs that produce validation errors but parse (whitespace, backslashes, missing slashes, credentials, bad escapes, hex/octal IPv4, trailing-dot and empty-label hosts, drive-letter quirks) with mutations; four parsers: default, reporting, fail-on-validation-error, both; " +
+	Rule: "(input, base?) pairs as in C01, a third biased to inputs that produce validation errors but parse (whitespace, backslashes, missing slashes, credentials, bad escapes, hex/octal IPv4, trailing-dot and empty-label hosts, drive-letter quirks) with mutations; four parsers: default, reporting, fail-on-validation-error, both; a quarter of the cases additionally carry 1..3 further parser options under which 'with reporting' is compared with 'without'; " +
 		"oracle: reporting never changes success or any getter; fail mode never accepts what the default rejects and returns the same URL; without a base fail mode accepts exactly when reporting records nothing; every returned error has a documented non-empty type and (default, reporting) is marked as failure; a failure-marked error from fail mode implies the default fails; recorded entries on success are non-fatal with documented types; MissingSchemeNonRelativeURL exactly when the reference model fails in the no-scheme state; " +
 		"non-trivial = the input parses and reporting records at least one entry, or the default fails after entering at least 3 states; distinct by hash of (input, base)",
 	Gen:   Gen15,
